@@ -20,7 +20,7 @@ use std::fmt::Display;
 use std::mem;
 
 use itertools::Itertools;
-use ndarray::{Array1, Axis, concatenate};
+use ndarray::{Array1, Axis};
 use thiserror::Error;
 
 use super::iter::PolyhedraIter;
@@ -595,12 +595,8 @@ impl<const K: usize> AffTree<K> {
         while let Some((data, _)) = iter.next(&self.tree) {
             let node = self.tree.node_value_mut(data.index).unwrap();
 
-            let restricted_mat = keep_idx
-                .iter()
-                .map(|i| node.aff.mat.index_axis(Axis(1), *i).insert_axis(Axis(1)))
-                .collect_vec();
-
-            node.aff.mat = concatenate(Axis(1), restricted_mat.as_slice()).unwrap();
+            // select (unlike concatenate) also handles the case that no axis is kept
+            node.aff.mat = node.aff.mat.select(Axis(1), &keep_idx);
             node.state = NodeState::Indeterminate;
         }
 
